@@ -678,6 +678,7 @@ def do_query(circ, rng, N, exact):
         kw = {}
         if exact and rng.random() < 0.3:
             kw["simplify_sequence"] = gen.choice(rng, ["", "R", "ADCRS"])
+            kw["optimize"] = "greedy"     # (the default path search can take minutes on an unsimplified network)
         return gen.attempt2(circ.amplitude, b, **kw)
     if r < 0.64:
         k = int(rng.integers(1, min(N, 3) + 1))
@@ -690,6 +691,7 @@ def do_query(circ, rng, N, exact):
         kw = {}
         if exact and rng.random() < 0.3:
             kw["simplify_sequence"] = gen.choice(rng, ["", "R", "ADCRS"])
+            kw["optimize"] = "greedy"
         if rng.random() < 0.15:
             kw["dtype"] = "complex64"
         w = tuple(where) if k > 1 else (where[0] if rng.random() < 0.5 else (where[0],))
@@ -760,6 +762,9 @@ def wl_program(rng, rec, tier):
     for step in range(ngates):
         c = gen.choice(rng, circs)
         r = rng.random()
+        if par and r > 0.6:
+            # parametrized programs: more re-binding steps
+            r = 0.6 + (r - 0.6) * 0.25 if r < 0.8 else (0.69 if r < 0.86 else 0.96)
         if r < 0.68:
             g = rand_gate(rng, N)
             log.append(("gate", g[1] if g[0] == "named" else "RAW", g[3], g[4]))
@@ -798,9 +803,12 @@ def wl_program(rng, rec, tier):
                         log.append(("register_named",))
                         do_query(c, rng, N, exact)
             else:
+                # the same question before and after re-binding by name only
                 do_query(c, rng, N, exact)
+                gen.attempt2(c.to_dense)
                 gen.attempt2(c.set_params, {gen.choice(rng, names): float(rng.normal())})
                 log.append(("set_named",))
+                gen.attempt2(c.to_dense)
                 do_query(c, rng, N, exact)
     # final queries on every live circuit (cache clause: repeated queries)
     for c in circs:
